@@ -287,7 +287,7 @@ class Select(Suite):
     """end to end: DeltaSelector.ObjectsToPack + Encoder.Encode; the model replays the encoder on the selected graph"""
     name = "select"
     go_cmd = "c07"
-    coq_imports = "From GoGit Require Import Model.PackEnc."
+    coq_imports = "From GoGit Require Import Model.PackEnc Model.DeltaSel."
     quick_n = 60
     thorough_n = 200
     coq_chunk = 40
@@ -325,6 +325,7 @@ class Select(Suite):
             rng.shuffle(order)
             c["order"] = order
             c["bucket"] = b
+            c["sel"] = len(set(order)) == len(order)      # the selection model does not cover an id requested twice
             cases.append(c)
         res = run_bin([dict(c, id=i) for i, c in enumerate(cases)])
         for i, c in enumerate(cases):
@@ -344,6 +345,16 @@ class Select(Suite):
         g = self._graph(c)
         if g is None:
             return 'OErr "nograph"'
+        if c.get("sel"):
+            # the chooser's two inputs (sort order, delta sizes) are taken from the implementation; the model must then
+            # reproduce the whole selection (bases and depths) and the encoder's run on it
+            sel = ((self._impl.get(self.key(c)) or {}).get("extra") or {}).get("sel")
+            if sel is None:
+                return 'OErr "nosel"'
+            objs = "; ".join("(%d%%N, %d, %d, %s)" % (k, t, sz, "None" if b < 0 else "Some (%d%%N, %d)" % (b, a)) for k, t, sz, b, a in sel["objs"])
+            order = "; ".join("%d" % u for u in sel["order"] or [])
+            dsz = "; ".join("(%d, %d, %d%%Z)" % (b, t, d) for b, t, d in sel["dsz"] or [])
+            return "c07_select %d [%s]%%Z [%s]%%nat [%s]%%nat" % (c["window"], objs, order, dsz)
         return "c07_run " + coq_nodes([(x[0], x[1]) for x in g])
 
     def nontrivial(self, c):
@@ -393,4 +404,26 @@ class Select(Suite):
                 "selected_graphs_with_a_cycle": sum(1 for x in d if x[3])}
 
 
-SUITES = [Graph(), Select()]
+class Limit(Suite):
+    """leaf: DeltaSelector.deltaSizeLimit (not translatable by gotrans: method on a struct receiver) vs Model/DeltaSel.delta_size_limit"""
+    name = "limit"
+    go_cmd = "c07"
+    coq_imports = "From GoGit Require Import Model.DeltaSel."
+    quick_n = 6
+    thorough_n = 40
+
+    def gen(self, rng, n, tier):
+        cases = []
+        sizes = [0, 1, 2, 15, 16, 17, 18, 19, 33, 100, 101, 999, 1000, 4096, 65535, 2**20 + 1, 2**31, 2**40 + 7]
+        depths = [0, 1, 2, 9, 10, 25, 48, 49, 50, 51, 60, 100]
+        for _ in range(n):
+            args = [[rng.choice(sizes + [rng.randrange(0, 5000)]), rng.choice(depths + [rng.randrange(0, 52)]),
+                     rng.choice(depths + [rng.randrange(0, 52)]), rng.randrange(2)] for _ in range(60)]
+            cases.append({"kind": "limit", "args": args, "bucket": "limit"})
+        return cases
+
+    def model_expr(self, c):
+        return "c07_limits [%s]%%Z" % "; ".join("(%d, %d, %d, %s)" % (a, b, d, "true" if x else "false") for a, b, d, x in c["args"])
+
+
+SUITES = [Graph(), Select(), Limit()]
